@@ -252,6 +252,18 @@ def process_state_rule(ctx: Ctx, rid: str, entries: list, what: str, census: boo
                    f"the value kept in {slot} was computed from {', '.join(lost)}, and the test that decides whether the kept value is "
                    f"returned does not compare {', '.join(lost)}: the first caller's value answers every later one; {what}",
                    key=key_of_text(rid, fn.qual, f"{slot} lost {','.join(lost)}"))
+    # invalidation: values kept on an object and computed from its fields are dropped by every writer of those fields
+    from ..memo import invalidation_control_ok, invalidation_findings
+    if not invalidation_control_ok():
+        raise AnchorMissing("memo rules: the invalidation control sample no longer matches")
+    for ci in sorted({fn.cls for fn in reach if fn.cls is not None}, key=lambda c: c.name):
+        meths = {nm: m.node for nm, m in ci.methods.items() if isinstance(m.node, (ast.FunctionDef, ast.AsyncFunctionDef))}
+        for cont, desc, writer, w in invalidation_findings(meths):
+            wf = ci.methods[writer]
+            ctx.ob(rid, f"{ci.name}.{writer}: writes {desc}, on which the values kept in self.{cont} depend", (wf, w), False,
+                   f"self.{cont} answers later calls from values computed with {desc}; this write changes it and no `self.{cont}.clear()` follows "
+                   f"on the same path: the old values keep being returned; {what}",
+                   key=key_of_text(rid, f"{ci.name}.{writer}", f"{cont} stale after {desc}"))
     ctx.ob(rid, f"memo soundness over {n} functions reachable from {', '.join(e.qual for e in entries)}", entries[0], True,
            "no container entry or attribute slot is keyed by less than the inputs its value was computed from", nontrivial=False)
     if census:
